@@ -102,3 +102,69 @@ Print Assumptions C12_unbounded_starts.
 Theorem C12_par_conservation : forall m evs, is_par m = true -> conservation_stmt (run m evs).
 Proof. exact par_conservation. Qed.
 Print Assumptions C12_par_conservation.
+
+(* ---- the tie to the source by translation (see props/C11.v): coq/gen/GenTaskMgr.v is regenerated from
+   src/eascheduler/task_managers/*.py on every run; these theorems are re-checked against it. *)
+From EAS Require GenRtTaskMgr GenTaskMgrEq.
+Import GenRtTaskMgr GenTaskMgrEq.
+Theorem C12_generated_source_recognised : EASGen.GenTaskMgr.gen_taskmgr_status_v = EASGen.GenTaskMgr.GenTaskMgrOk.
+Proof. exact gen_taskmgr_recognised. Qed.
+Print Assumptions C12_generated_source_recognised.
+
+(* create_task of ParallelTaskManager / LimitingParallelTaskManager computes the model's submission step (skip /
+   cancel_first / cancel_last included), returns the new task unless the coroutine was skipped, and registers
+   tasks.discard / _remove_task on exactly that task; on every state of the invariant *)
+Theorem C12_generated_create_task_is_submit :
+  forall m s r c k n, is_par m = true -> Inv m s -> cfg_ok m -> ph s c = Unknown ->
+    gen_create_task m c k n (mkrt s r) =
+    (mkrt (submit m s c k) (addreg r (submit_rv m s c k) (cb_of m)), Ret (submit_rv m s c k)) /\
+    started (submit m s c k) = started s ++ olist (submit_rv m s c k).
+Proof.
+  exact (fun m s r c k n _ Hi Hc Hu =>
+    conj (gen_create_task_is_submit m s r c k n Hi Hc Hu)
+         (eq_trans (f_equal started (submit_unknown m s c k Hu)) (submit_started m s c k Hc))).
+Qed.
+Print Assumptions C12_generated_create_task_is_submit.
+
+(* the limiting manager needs only that __init__ accepted the bound: every state *)
+Theorem C12_generated_limiting_create_task_every_state :
+  forall lim p c k s r, (lim <? 1) = false ->
+    EASGen.GenTaskMgr.LimitingParallelTaskManager.create_task lim p c k (mkrt s r) =
+    (mkrt (submit_parlim lim p s c k) (addreg r (submit_rv (MParLim lim p) s c k) CbRemoveTask),
+     Ret (submit_rv (MParLim lim p) s c k)).
+Proof. exact parlim_create_task. Qed.
+Print Assumptions C12_generated_limiting_create_task_every_state.
+
+Theorem C12_generated_create_task_at_submit_event :
+  forall m evs r c k n, cfg_ok m -> ph (run m evs) c = Unknown ->
+    ms (fst (gen_create_task m c k n (mkrt (set_flag (run m evs) false) r))) = step m (run m evs) (Submit c k).
+Proof. exact gen_create_task_reachable. Qed.
+Print Assumptions C12_generated_create_task_at_submit_event.
+
+(* tasks.discard / _remove_task as done-callbacks compute what the model runs at an HDone handle; on EVERY state *)
+Theorem C12_generated_done_callback_is_model :
+  forall m s r c, is_par m = true ->
+    gen_run_cb m (cb_of m) c (mkrt s r) = (mkrt (untrack s c) r, Ret tt).
+Proof.
+  exact (fun m s r c =>
+    match m return is_par m = true -> gen_run_cb m (cb_of m) c (mkrt s r) = _ with
+    | MPar => fun _ => par_run_cb c s r
+    | MParLim l p => fun _ => parlim_run_cb l p c s r
+    | MSeq | MSeqLim _ _ | MSeqDedup => fun H => match Bool.diff_false_true H with end
+    end).
+Qed.
+Print Assumptions C12_generated_done_callback_is_model.
+
+Theorem C12_generated_hdone_is_model :
+  forall m s r c d, ph s c = Done d ->
+    ms (fst (gen_run_cb m (cb_of m) c (mkrt (set_ph s (upd (ph s) c (Processed d))) r))) = run_done m s c.
+Proof. exact gen_run_done_is_model. Qed.
+Print Assumptions C12_generated_hdone_is_model.
+
+Theorem C12_generated_callbacks_registered :
+  forall m, RegOk m (mkrt init []) /\
+    (forall s c k n, RegOk m s -> Inv m (ms s) -> cfg_ok m -> ph (ms s) c = Unknown ->
+       RegOk m (fst (gen_create_task m c k n s))) /\
+    (forall s c, RegOk m s -> RegOk m (fst (gen_run_cb m (cb_of m) c s))).
+Proof. exact (fun m => conj (regs_ok_init m) (conj (regs_ok_create_task m) (regs_ok_run_cb m))). Qed.
+Print Assumptions C12_generated_callbacks_registered.
